@@ -21,6 +21,29 @@ theorem C19_read (nl : α) (items : List (List α)) (proxyclose closed0 : Bool) 
   apply run_refines
   simp [Reader.pending, Reader.init, File.rem, File.open]
 
+/-- **C19 (nothing lost, duplicated or reordered).** For EVERY reader state and EVERY sequence of
+`read(n)` / `readline()` calls, the concatenation of everything the calls returned, followed by what is
+still unread (buffer and queued items), is exactly what was unread before — stated without reference to
+the file model.  In particular, from a fresh `makefile('r')`, the returned values concatenate to a prefix
+of the concatenated items, and to all of them once the reader is at the end. -/
+theorem C19_conserve (nl : α) (s : Reader α) (calls : List Call) :
+    (outputs (Reader.run nl s calls)).flatten ++ (Reader.run nl s calls).2.pending = s.pending :=
+  run_conserve nl calls s
+
+theorem C19_conserve_fresh (nl : α) (items : List (List α)) (proxyclose closed0 : Bool) (calls : List Call) :
+    (outputs (runReader nl items proxyclose closed0 calls)).flatten <+: items.flatten ∧
+    ((runReader nl items proxyclose closed0 calls).2.atEnd →
+      (outputs (runReader nl items proxyclose closed0 calls)).flatten = items.flatten) := by
+  have h := run_conserve nl calls (Reader.init items proxyclose closed0)
+  have hp : (Reader.init items proxyclose closed0).pending = items.flatten := by
+    simp [Reader.pending, Reader.init]
+  rw [hp] at h
+  refine ⟨⟨_, h⟩, fun he => ?_⟩
+  have := ((atEnd_iff _).1 he).2
+  unfold runReader at this ⊢
+  rw [this, List.append_nil] at h
+  exact h
+
 /-- **C19 (after the end).** Once the channel has ended and its data has been handed out (nothing queued,
 buffer `None` or empty), every further `read(n)` / `readline()` returns the empty result, forever. -/
 theorem C19_after_end (nl : α) (s : Reader α) (h : s.atEnd) (calls : List Call) :
@@ -82,6 +105,12 @@ proxyclose conclusion of `C19_end_reached` is not vacuous -/
 example : (Reader.run 10 (Reader.init [[97, 98]] true false) [.read 3]).2.atEnd ∧
     (Reader.run 10 (Reader.init [[97, 98]] true false) [.read 3]).2.closed = true ∧
     (Reader.run 10 (Reader.init [[97, 98]] true false) [.read 2]).2.closed = false := by decide
+
+/-- conservation, concretely: a partial run returns a strict prefix and keeps the rest pending; the
+`atEnd` premise of `C19_conserve_fresh` is met after a short read -/
+example : (outputs (runReader 10 [[97, 10], [98, 99]] false false [.readline, .read 1])).flatten = [97, 10, 98] ∧
+    (runReader 10 [[97, 10], [98, 99]] false false [.readline, .read 1]).2.pending = [99] ∧
+    (runReader 10 [[97, 10], [98, 99]] false false [.readline, .read 5]).2.atEnd := by decide
 
 /-- writer: two accepted writes, a flush, close with proxyclose, then a refused write -/
 example : (Writer.run (Writer.init (α := Nat) true) [.write [1], .flush, .write [], .close, .write [2]])
